@@ -190,7 +190,10 @@ def ite(g, a, b):
     if isinstance(a, UrlV) and isinstance(b, UrlV): return UrlV(ite(g, a.id, b.id))
     if isinstance(a, TextV) and isinstance(b, TextV) and a.lower == b.lower: return TextV(ite(g, a.id, b.id), a.lower)
     if hasattr(a, 'merge') and type(a) is type(b): return a.merge(g, b)
-    if isinstance(a, (StrV, ClosureV, FnItem)): return a
+    if isinstance(a, StrV) and isinstance(b, StrV):
+        if a.s != b.s: raise Unsupported(f'merge of two different string constants {a.s!r} / {b.s!r}')
+        return a
+    if isinstance(a, (ClosureV, FnItem)) and type(a) is type(b): return a
     raise Unsupported(f'ite of {type(a).__name__} / {type(b).__name__}')
 
 def val_eq(a, b):
